@@ -34,7 +34,7 @@ theorem cover_rec_no_miss {P : Type} (inCell : Nat → Nat → P → Prop) (R : 
     (hskip : ∀ d h l, κ d h l = some .skip → ∀ q, inCell d h q → ¬ R q)
     (fuel depth hash level : Nat) (out : List Cell) (h : coverRec target κ fuel depth hash level = some out)
     (q : P) (hq : inCell depth hash q) (hR : R q) : ∃ c ∈ out, inCell c.depth c.hash q :=
-  coverRec_no_miss inCell R target κ hcover hskip fuel depth hash level out h q hq hR
+  coverRec_no_miss inCell R target κ (fun d h q _ => hcover d h q) hskip fuel depth hash level out h q hq hR
 
 /-- `r ≥ π`: the whole sky, whatever the centre (NaN centres included) -/
 theorem allsky_exact {α : Type} [Num α] (cfg : Cfg) (depth : Nat) (lon lat r : α) (hr : Num.ge r (Num.pi : α) = true) :
